@@ -282,6 +282,23 @@ TypedValue evaluate_binary_op_typed(
         return TypedValue(result_str, InferredType(TYPE_STRING, "string"));
     }
 
+    // string + scalar / scalar + string: the scalar operand is converted to
+    // text exactly as the assignment `string s = scalar;` converts it
+    // (TypedValue::as_string: integers, char and bool in decimal, floating
+    // values as std::to_string prints them) and the two texts are joined.
+    // Without this the string operand counted as the number 0 and the sum
+    // came back as a number carrying the string type.
+    if (node->op == "+" && left_value.is_string() != right_value.is_string()) {
+        const TypedValue &scalar =
+            left_value.is_string() ? right_value : left_value;
+        if (scalar.is_numeric() && !scalar.is_function_pointer &&
+            !scalar.is_pointer && scalar.numeric_type != TYPE_POINTER &&
+            !TypeHelpers::isPointer(scalar)) {
+            return TypedValue(left_value.as_string() + right_value.as_string(),
+                              InferredType(TYPE_STRING, "string"));
+        }
+    }
+
     // ポインタ演算の特別処理
     if (node->op == "+" || node->op == "-") {
         // 左オペランドがポインタの場合
